@@ -189,8 +189,8 @@ impl Scenario for C15Read {
     }
     fn runs(&self, tier: Tier) -> u64 {
         match tier {
-            Tier::Quick => 8_000,
-            Tier::Thorough => 500_000,
+            Tier::Quick => 12_000,
+            Tier::Thorough => 1_500_000,
         }
     }
     fn describe(&self) -> &'static str {
@@ -221,7 +221,7 @@ impl Scenario for C15Read {
             sj.fail_at = Some(j);
             read_pass(cx, &mut sj, true)?;
             if !sj.failed {
-                cx.fail("C15/harness-fault-not-reached", format!("fault at call {j} of {c0} never fired"));
+                cx.discard("fault-not-reached");
                 return cx.verdict();
             }
             if j == 0 {
@@ -231,6 +231,16 @@ impl Scenario for C15Read {
                 cx.probe("error_at_last_call");
             }
             cx.probe("hard_error_placements");
+            j += step;
+        }
+        // pass 3: exactly one interrupted read at every I/O call index
+        let mut j = if step > 1 { cx.draw(step as u64) as usize } else { 0 };
+        while j < c0 {
+            let mut sj = SimStream::new(cx, data.clone());
+            sj.frag = Frag::Whole;
+            sj.eintr_at = Some(j);
+            read_pass(cx, &mut sj, false)?;
+            cx.probe("eintr_placements");
             j += step;
         }
         let _ = calls;
@@ -247,8 +257,8 @@ impl Scenario for C15Write {
     }
     fn runs(&self, tier: Tier) -> u64 {
         match tier {
-            Tier::Quick => 8_000,
-            Tier::Thorough => 500_000,
+            Tier::Quick => 60_000,
+            Tier::Thorough => 5_000_000,
         }
     }
     fn describe(&self) -> &'static str {
@@ -320,6 +330,41 @@ impl Scenario for C15Write {
                     }
                 }
             }
+            // one interrupted call / one single-byte write at every call index: must still deliver everything
+            for mode in 0..2 {
+                let mut j = 0;
+                loop {
+                    let mut sj = SimStream::new(cx, vec![]);
+                    if mode == 0 {
+                        sj.eintr_at = Some(j);
+                    } else {
+                        sj.one_byte_at = Some(j);
+                    }
+                    let mut lim = LimitedSink { inner: sj, max: 7 };
+                    let r = f.write(&mut lim);
+                    if !lim.inner.placed_fired {
+                        break;
+                    }
+                    cx.probe(if mode == 0 { "eintr_placements" } else { "one_byte_write_placements" });
+                    if r.is_err() || lim.inner.sink != want {
+                        cx.fail(
+                            "C15/sink-differs-from-encoding",
+                            format!(
+                                "{} at call {j}: Frame::write returned {:?} and the sink holds {:?}, wanted {:?}",
+                                if mode == 0 { "one interrupted write" } else { "one single-byte write" },
+                                r.map_err(|e| err_kind(&e)),
+                                String::from_utf8_lossy(&lim.inner.sink),
+                                String::from_utf8_lossy(&want)
+                            ),
+                        );
+                        return cx.verdict();
+                    }
+                    j += 1;
+                    if j > 200 {
+                        break;
+                    }
+                }
+            }
             let _ = calls;
         }
         cx.verdict()
@@ -351,8 +396,8 @@ impl Scenario for C15Compositions {
     }
     fn runs(&self, tier: Tier) -> u64 {
         match tier {
-            Tier::Quick => 24,
-            Tier::Thorough => 1_500,
+            Tier::Quick => 48,
+            Tier::Thorough => 4_000,
         }
     }
     fn describe(&self) -> &'static str {
